@@ -21,6 +21,23 @@ pub fn jerr(e: &Error) -> Value {
     json!({ "err": err_name(e.kind()) })
 }
 
+/// values longer than 512 bytes are compared by length and FNV-1a-64 digest
+pub fn jvalue(v: &[u8]) -> Value {
+    if v.len() <= 512 { return json!(hex::encode(v)); }
+    let mut h: u64 = 0xcbf29ce484222325;
+    for b in v { h ^= *b as u64; h = h.wrapping_mul(0x100000001b3); }
+    json!(format!("len:{}:fnv:{:016x}", v.len(), h))
+}
+
+/// value spec of the line protocol: hex string, or {"fill": byte, "len": n, "salt": k} = bytes (fill + i*salt) mod 256
+pub fn value_from_json(v: &Value) -> Vec<u8> {
+    if let Some(s) = v.as_str() { return hex::decode(s).unwrap_or_default(); }
+    let fill = v["fill"].as_u64().unwrap_or(0);
+    let salt = v["salt"].as_u64().unwrap_or(0);
+    let len = v["len"].as_u64().unwrap_or(0);
+    (0..len).map(|i| ((fill + i * salt) % 256) as u8).collect()
+}
+
 pub fn kind_of(k: i64) -> EntryKind {
     if k == 1 { EntryKind::Kms } else { EntryKind::Item }
 }
@@ -90,7 +107,7 @@ impl Rec {
         }
     }
     pub fn to_json(&self) -> Value {
-        json!({"k": self.kind, "c": self.cat, "n": self.name, "v": hex::encode(&self.value),
+        json!({"k": self.kind, "c": self.cat, "n": self.name, "v": jvalue(&self.value),
                "t": sorted_tags(&self.tags).iter().map(Tag::to_json).collect::<Vec<_>>()})
     }
     pub fn sort_key(&self) -> (i64, Vec<u8>, Vec<u8>) {
